@@ -5,7 +5,7 @@
 ID="$1"; KIND="$2"; FILTER="${3:-}"
 W=${WT:-/tmp/seed-$ID}; export CARGO_TARGET_DIR=$W/target; O=out${SUB:+/$SUB}
 cd $W || exit 2
-put_demo() { if [ "$KIND" = "bin" ]; then python3 $O/apply_demo.py >/dev/null; else mkdir -p $KIND/tests; cp $O/demo.rs $KIND/tests/seed_demo.rs; fi; }
+put_demo() { if [ "$KIND" = "bin" ]; then python3 $O/apply_demo.py . >/dev/null; else mkdir -p $KIND/tests; cp $O/demo.rs $KIND/tests/seed_demo.rs; fi; }
 run_demo() { if [ "$KIND" = "bin" ]; then cargo test --offline -j 6 --bin feather-build-rs $FILTER 2>&1 | grep -E "^test result" | tail -1; else cargo test -p $KIND --test seed_demo --offline -j 6 2>&1 | grep -E "^test result" | tail -1; fi; }
 git checkout -q -- . ; rm -f */tests/seed_demo.rs
 put_demo; echo "demo without patch: $(run_demo)"
